@@ -135,6 +135,38 @@ reg("C14",
     "Garbage alphabet is ASCII (+ a few letters); the reference recognisers are the harness' own.",
     "DESIGN.md section 4, C14")
 
+reg("C07",
+    "differential testing of the shipped N/S/E recognisers against hand-written reference recognisers over a bounded-exhaustive slot product, Hypothesis grammar positives, edit mutations and whole sections",
+    "Exploration by generated-input search: the complete 9-slot corruption product (~7*10^5 strings) and "
+    "an E-specific product every run; Hypothesis members with digit strings up to 300/1000 digits, all "
+    "indices, padding and non-ASCII words; 1-2 character edits of members, lines of the other kinds and "
+    "token soup; padded/zero-prefixed sections with interleaved non-members through Chart.from_file "
+    "(exactly the members' events, one warning per non-member). A recogniser bug confined to a string "
+    "shape none of the generators produce would be missed.",
+    "Reference recognisers are index-arithmetic scanners in cpverif/model.py; alphabet restricted as "
+    "stated in the assumptions; inner-tab / empty E payloads not asserted.",
+    "DESIGN.md section 4, C07")
+
+reg("C09",
+    "Hypothesis fragment-assembled event texts and sections against a reference classifier (differential), at section and datum level",
+    "Exploration by generated-input search: texts assembled from keyword/quote/blank/bracket/non-ASCII "
+    "fragments so that 'lyric'/'section' occur as prefix, infix and suffix with and without the blank; "
+    "sections of up to 30/120 padded lines in sorted order over multi-tempo maps or arbitrary order "
+    "over one tempo; each list must equal the classified (tick, value) subsequence in file order; "
+    "silent texts (inner quote, no keyword) may land in at most one list.",
+    "Reference classifier is three lines of string code in cpverif/model.py.",
+    "DESIGN.md section 4, C09")
+
+reg("C10",
+    "Hypothesis-generated [Song] bodies against a reference decoder and defaults table, plus metamorphic delete/rewrite/single-line non-interference relations; every single field enumerated",
+    "Exploration by generated-input search: subsets of the 23 optional fields in drawn line orders with "
+    "padding and adversarial values (quotes, '=', field names, whole foreign lines, blanks, non-ASCII, "
+    "30-digit integers), through Metadata.from_chart_lines and Chart.from_file; the empty set, full "
+    "set and each single field enumerated every run; delete / rewrite / one-line relations check that "
+    "no field's line influences another.",
+    "Defaults table hard-coded from the documentation in cpverif/model.py; values written quoted.",
+    "DESIGN.md section 4, C10")
+
 
 def build():
     checks = []
